@@ -308,21 +308,40 @@ pub fn dce(
                 .map(|arg| cemetery.contains(arg))
                 .collect_vec();
 
-            for pred in block.pred_iter(context).cloned().collect_vec() {
-                let params = pred
-                    .get_succ_params_mut(context, &block)
-                    .expect("Invalid IR");
+            // Remove parameters passed to a dead argument.
+            let remove_dead_params = |params: &mut Vec<Value>| {
                 let mut index = 0;
-
-                // Remove parameters passed to a dead argument.
                 let params_len_before = params.len();
                 params.retain(|_| {
                     let retain = !dead_args[index];
                     index += 1;
                     retain
                 });
-                let params_len_after = params.len();
-                modified |= params_len_before != params_len_after;
+                params_len_before != params.len()
+            };
+
+            for pred in block.pred_iter(context).cloned().collect_vec() {
+                // A conditional branch can have `block` as both of its successors.
+                if let Some(Instruction {
+                    op:
+                        InstOp::ConditionalBranch {
+                            true_block,
+                            false_block,
+                            ..
+                        },
+                    ..
+                }) = pred.get_terminator_mut(context)
+                {
+                    if true_block.block == block && false_block.block == block {
+                        modified |= remove_dead_params(&mut true_block.args);
+                        modified |= remove_dead_params(&mut false_block.args);
+                        continue;
+                    }
+                }
+                let params = pred
+                    .get_succ_params_mut(context, &block)
+                    .expect("Invalid IR");
+                modified |= remove_dead_params(params);
             }
 
             // Remove the dead argument itself.
